@@ -1,7 +1,8 @@
 """C12 — cluster engine start/stop is all-or-nothing across hosts and reports failures.
 
 Leg M   : TLC on Mechanic.tla (MechanicActor / Dispatcher / NodeMechanicActor handlers as written, race control and the remote
-          Rally daemons as environment): safety invariants over all interleavings, all single faults (start failure on a host
+          Rally daemons as environment; one MechanicActor serves a history of up to 3 engine lifecycles, each external or
+          provisioned, the actor's own fields carried over as the code does): safety invariants per lifecycle over all interleavings, all single faults (start failure on a host
           before / while launching, remote daemon leaving while the Dispatcher waits) for a family of target-host lists, and
           liveness (EngineStarted or BenchmarkFailure is eventually delivered; a fault leads to BenchmarkFailure) under weak
           fairness. Self-test: the pinned variant (LeaveFix = FALSE, the `not remoteAdded` branch as written) violates NoStall
@@ -73,10 +74,11 @@ def _script_of(states):
     return scn, up, script
 
 
-def trap_schedules(out):
+def trap_schedules(out, quick=False):
     """Counterexamples TLC finds for the pinned model variant become schedules for the real code."""
     traps = []
-    for cfg, what in (("Mechanic.pinned.cfg", "NoStall"), ("Mechanic.live.pinned.cfg", "liveness")):
+    cfgs = (("Mechanic.pinned.cfg", "NoStall"),) if quick else (("Mechanic.pinned.cfg", "NoStall"), ("Mechanic.live.pinned.cfg", "liveness"))
+    for cfg, what in cfgs:
         wd = tlc.prepare_workdir("Mechanic", "mechtrap")
         res = tlc.run_tlc(wd, "MC_Mechanic", cfg, timeout=600, allow_violation=True, workers=4)
         if res.ok:
@@ -96,8 +98,8 @@ def trap_schedules(out):
             raise tlc.MachineryError("could not extract a counterexample from %s" % cfg)
         traps.append((scn, up, script, cfg))
     out.extra["model_selftest"] = (
-        "pinned variant (LeaveFix=FALSE: Dispatcher calls self.start_sender(...) on a remote daemon's departure) violates NoStall and "
-        "the liveness properties Answered / FaultLeadsToFailure in the model, as expected"
+        "pinned variant (LeaveFix=FALSE: Dispatcher calls self.start_sender(...) on a remote daemon's departure) violates NoStall "
+        "(thorough tier: and the liveness properties Answered / FaultLeadsToFailure) in the model, as expected"
     )
     return traps
 
@@ -269,6 +271,11 @@ def run(ctx, out):
         "launcher.start), at most one fault per run; race control behaves like racecontrol.BenchmarkActor (StopEngine only after "
         "EngineStarted, ActorExitRequest after a failure or after EngineStopped)",
         "<= 3 hosts (coordinator host + 2 remote daemons) x 2 ports, target lists of <= 3 entries in the model, <= 4 in random runs",
+        "reuse: one MechanicActor serves a history of <= 3 lifecycles (StartEngine .. EngineStopped, then the next StartEngine with another "
+        "configuration); the next StartEngine is sent only after everything of the finished lifecycle has drained (no message in flight, "
+        "node actors exited, no delayed ResetRelativeTime wake-up of the MechanicActor still pending); a lifecycle with a fault ends the "
+        "history (race control tears the actors down); observations and L1 clauses are per lifecycle, dispatchers of earlier lifecycles "
+        "stay alive and idle until the MechanicActor exits",
         "liveness is checked on the model under weak fairness of actors, race control and awaited daemons; on the real code a hang is a "
         "recorded state in which no delivery, wake-up or environment step that counts as progress is enabled and race control has "
         "neither EngineStarted nor BenchmarkFailure",
@@ -279,13 +286,13 @@ def run(ctx, out):
     else:
         model_check(out, [("Mechanic.quick.cfg", True), ("Mechanic.thorough.cfg", False), ("Mechanic.exhaustive.cfg", False), ("Mechanic.live.cfg", False), ("Mechanic.live.thorough.cfg", False)], timeout=1500)
         out.exhaustive = False
-    traps = trap_schedules(out)
+    traps = trap_schedules(out, ctx.quick)
     # ---- Leg S2C
     jobs = []
     for hist, up, script, _cfg in traps:
         for k in range(2):
             jobs.append({"hist": hist, "up": up, "script": script, "seed": ctx.seed + k, "fault_prob": 0.0})
-    beh = behaviours(ctx, out, 120 if ctx.quick else 1500, 110)
+    beh = behaviours(ctx, out, 120 if ctx.quick else 1200, 110)
     out.note("leg S2C: %d TLC behaviours + %d trap schedules" % (len(beh), len(traps)))
     for i, (hist, up, script) in enumerate(beh):
         jobs.append({"hist": hist, "up": up, "script": script, "seed": ctx.seed + i, "fault_prob": 0.0})
@@ -295,7 +302,7 @@ def run(ctx, out):
     # ---- random schedules not derived from TLC
     rnd = random.Random(ctx.seed + 4242)
     rjobs = []
-    for i in range(150 if ctx.quick else 2500):
+    for i in range(150 if ctx.quick else 1800):
         hist, up = random_history(rnd)
         rjobs.append({"hist": hist, "up": up, "script": [], "seed": ctx.seed + 5000 + i, "fault_prob": [0.0, 0.03, 0.12][i % 3] if len(hist) > 1 else [0.0, 0.1, 0.3][i % 3], "proc_prob": [0.0, 0.15, 0.3, 0.15][i % 4]})
     rstats, rindex = run_traces(ctx, out, rjobs, "rnd")
